@@ -59,6 +59,8 @@ type selectForUpdateExecutor struct {
 	selectPKSQL   string
 	metaData      *types.TableMeta
 	savepointName string
+	// lockKeyErr is the error met while reading the primary keys of the selected rows
+	lockKeyErr error
 }
 
 func NewSelectForUpdateExecutor(parserCtx *types.ParseContext, execContext *types.ExecContext, hooks []exec.SQLHook) executor {
@@ -183,6 +185,10 @@ func (s *selectForUpdateExecutor) doExecContext(ctx context.Context, f exec.Call
 	if err != nil {
 		return nil, err
 	}
+	if s.lockKeyErr != nil {
+		// an empty key would be taken for "no row selected" and skip the global lock check
+		return nil, s.lockKeyErr
+	}
 
 	if lockKey == "" {
 		return nil, nil
@@ -272,6 +278,7 @@ func (s *selectForUpdateExecutor) buildLockKey(rows driver.Rows, meta *types.Tab
 			if err == io.EOF {
 				break
 			}
+			s.lockKeyErr = err
 			return ""
 		}
 
@@ -298,6 +305,11 @@ func (s *selectForUpdateExecutor) buildLockKey(rows driver.Rows, meta *types.Tab
 			// if the value type is *int64, *string etc. then get the true value
 			lockKeys.WriteString(fmt.Sprintf("%v", reflect.ValueOf(value).Elem()))
 		}
+	}
+	// Next also ends the loop when reading fails: the keys read so far do not cover the selected rows
+	if err := sqlRows.Err(); err != nil {
+		s.lockKeyErr = err
+		return ""
 	}
 	return lockKeys.String()
 }
